@@ -1,6 +1,7 @@
 import Req.Driver.Proto
 import Req.Client.Redirect
 import Req.Client.Authority
+import Req.Client.RedirectLifetime
 /-! Driver lanes of C11 (redirect policies). -/
 namespace Req.Driver.L.C11
 open Req.Proto Req.Redirect
@@ -128,6 +129,29 @@ def lanePolicy : List String → String
     | _, _, _, _, _, _ => "bad-op"
   | _ => "bad-op"
 
+/-- `s.<i>.<policies>` (policies `-` = SetRedirectPolicy() with no argument) | `c.<i>` -/
+def decodeLifeOp (s : String) : Option (Lifetime.Op String) :=
+  match s.splitOn "." with
+  | ["s", i, ps] => i.toNat?.map fun i => .set i ps (ps == "-")
+  | ["c", i] => i.toNat?.map .clone
+  | _ => none
+
+/-- Client family history, oldest first on the line (`-` = none), `|`-separated. -/
+def decodeLifeOps (s : String) : Option (List (Lifetime.Op String)) :=
+  if s == "-" then some [] else ((s.splitOn "|").mapM decodeLifeOp).map List.reverse
+
+/-- `c11clone <ops> <j> <req host> <via hosts> <req headers> <via[0] headers> <probe keys>`:
+what client `j` of the family answers (client 0 = `C()`, default MaxRedirectPolicy(10)). -/
+def laneClone : List String → String
+  | [ops, j, req, via, rh, vh, probes] =>
+    match decodeLifeOps ops, j.toNat? with
+    | some h, some j =>
+      match (Lifetime.run "max:10" h)[j]? with
+      | some ps => lanePolicy [ps, req, via, rh, vh, probes]
+      | none => "no-client"
+    | _, _ => "bad-op"
+  | _ => "bad-op"
+
 def showOutcome : Outcome → String
   | .final => "final"
   | .refused k => "refused:" ++ toString k
@@ -145,6 +169,17 @@ def laneChain : List String → String
     | _, _, _, _, _ => "bad-op"
   | _ => "bad-op"
 
+/-- `c11clonechain <ops> <j> <h0> <targets> <initial headers> <probe keys>` -/
+def laneCloneChain : List String → String
+  | [ops, j, h0, ts, ih, probes] =>
+    match decodeLifeOps ops, j.toNat? with
+    | some h, some j =>
+      match (Lifetime.run "max:10" h)[j]? with
+      | some ps => laneChain [ps, h0, ts, ih, probes]
+      | none => "no-client"
+    | _, _ => "bad-op"
+  | _ => "bad-op"
+
 def lanes : List (String × (List String → String)) := [
   ("c11split", laneSplit),
   ("c11host", laneHost),
@@ -152,7 +187,9 @@ def lanes : List (String × (List String → String)) := [
   ("c11ip", laneIP),
   ("c11spec", laneSpec),
   ("c11policy", lanePolicy),
-  ("c11chain", laneChain)
+  ("c11chain", laneChain),
+  ("c11clone", laneClone),
+  ("c11clonechain", laneCloneChain)
 ]
 
 end Req.Driver.L.C11
